@@ -1626,6 +1626,28 @@ class UnitBuilder:
                     o.toks(toks, src, f"fn {name}")
                     o.text("\n")
                     self.rep.rule("R12 whole function emitted verbatim (plain Rust mode)")
+                elif kind == "plain":
+                    rel, k, name = payload
+                    src = self.source(rel)
+                    if k == "impl":
+                        its = src.find_impl(name if name.startswith("impl") else "impl " + name)
+                        if len(its) != 1:
+                            raise Undecided(f"plain impl `{name}`: {len(its)} blocks in {rel}")
+                        it = its[0]
+                    elif k == "fn":
+                        _, it = src.find_fn(None, name)
+                    elif k in ("const", "static"):
+                        it = src.find_const(name)
+                    else:
+                        it = src.find_type(k, name)
+                    self.cut(src, it, f"{k} {name} (verbatim)")
+                    for a in it.attrs:
+                        o.text(render(a).strip() + "\n", kind="gen")
+                    toks = list(it.toks)
+                    toks[0] = Tok(toks[0].kind, toks[0].text, toks[0].pos, "")
+                    o.toks(toks, src, f"{k} {name}")
+                    o.text("\n")
+                    self.rep.rule("R12 whole item emitted verbatim (plain Rust mode)")
                 else:
                     raise Undecided(f"directive {kind} not supported in rust mode")
             self.rep.fns = self.fn_ranges
